@@ -50,16 +50,8 @@ def loaded(k, gaps=0, gseed=0):
     return _loaded[key]
 
 
-def classify_and_trace(k, s, j, gaps=0, gseed=0):
-    """returns (list of per-stretch trace dicts, error)"""
-    import spowtd.classify as classify_mod
-    src = loaded(k, gaps, gseed)
-    conn = sqlite3.connect(":memory:")
-    src.backup(conn)
-    try:
-        classify_mod.classify_intervals(conn, storm_rain_threshold_mm_h=s, rising_jump_threshold_mm_h=j)
-    except Exception as e:  # noqa
-        return None, "%s: %s" % (type(e).__name__, str(e)[:300])
+def traces_from_conn(conn, tag, s, j):
+    """per-stretch TraceField traces from a classified dataset (thresholds s, j as given to classify)"""
     (dt,) = conn.execute("SELECT time_step_s FROM time_grid").fetchone()
     dt_h = dt / 3600.0
     thr = j * dt_h
@@ -92,7 +84,7 @@ def classify_and_trace(k, s, j, gaps=0, gseed=0):
             return idx.get(e, (e - lo) // dt + 1)
         mine = lambda e: lo <= e <= hi
         t = {
-            "id": "field%d s=%g j=%g stretch=%d" % (k, s, j, lab), "band": 2,
+            "id": "%s s=%g j=%g stretch=%d" % (tag, s, j, lab), "band": 2,
             "S": int(round(s * KR)), "J": int(round(thr * KZ)),
             "rain": [int(round(x * KR)) for x in rain], "inc": [int(round(x * KZ)) for x in inc],
             "hres": [bool(x > s) for x in rain], "wres": [bool(x > 0) for x in rain], "jres": [bool(x > thr) for x in inc],
@@ -106,6 +98,20 @@ def classify_and_trace(k, s, j, gaps=0, gseed=0):
         }
         # JSON arrays of length 0/1 are fine for the spec (sequences)
         traces.append(t)
+    return traces
+
+
+def classify_and_trace(k, s, j, gaps=0, gseed=0):
+    """returns (list of per-stretch trace dicts, error)"""
+    import spowtd.classify as classify_mod
+    src = loaded(k, gaps, gseed)
+    conn = sqlite3.connect(":memory:")
+    src.backup(conn)
+    try:
+        classify_mod.classify_intervals(conn, storm_rain_threshold_mm_h=s, rising_jump_threshold_mm_h=j)
+    except Exception as e:  # noqa
+        return None, "%s: %s" % (type(e).__name__, str(e)[:300])
+    traces = traces_from_conn(conn, "field%d" % k, s, j)
     conn.close()
     return traces, None
 
